@@ -175,6 +175,8 @@ unit(M("c07_prune_glue", functions=["raw_cache::prune"], bounds="all capacities;
 unit(M("proto_glue", functions=["raw_cache::{insert_or_update,insert_or_touch,touch,ensure_file_touched,move_to_back_of_list,set_read_only,ensure_file_removed}",
                                  "cache_dir::CacheDir::{get,touch,set,put}", "sharded::Shard::file_exists", "sharded::Cache::{get,touch,set,put}"],
        bounds="every path of each function's MIR (no loops); every callee succeeding or failing; callees uninterpreted; crate-local helpers inlined"))
+unit(M("builder_glue", functions=["stack::CacheBuilder::{default,arc_consistency_checker,clear_consistency_checker,build}", "readonly::ReadOnlyCacheBuilder::{default,arc_consistency_checker,clear_consistency_checker,build}"],
+       bounds="builder scripts {set, set+clear, clear, none} x with / without read-only caches; struct layout taken from the Default impl"))
 unit(M("readonly_glue", functions=["readonly::ReadOnlyCache::get::doit", "readonly::ReadOnlyCache::touch::doit"],
        bounds="stacks of up to 3 read-only levels (bounded unrolling of the scan), checker present/absent, every level hit/miss/failing, every checker and seek outcome"))
 unit(M("stack_gou_glue", functions=["stack::Cache::get_or_update", "stack::Cache::get_or_update::promote", "stack::Cache::get_or_update::{closure#0}", "stack::Cache::get_or_update::{closure#1}"],
@@ -242,7 +244,7 @@ prop("C12", ["proto_glue", "c12_mapping", "c12_constants", "c12_new_clamps", "sh
 prop("C13", ["readonly_glue", "stack_gou_glue", "stack_ops_glue", "stack_get_w1r1_nock", "stack_touch_w1r2", "stack_set_w0r1", "stack_ops_sanity_twin"],
      ["stackc_set_w1r1", "stackc_touch_w1r2", "stackc_get_w1r2_bytes", "stackc_put_w1r1", "stackc_set_temp_w1r1", "stackc_put_temp_w1r1", "stack_set_w1r1", "stack_put_w1r1", "stack_set_temp_w1r1", "stack_put_temp_w2r0", "stack_put_temp_w0r1", "stack_get_w0r2_bytes", "stack_get_w1r0_nock", "stack_get_w0r1_nock", "readonly_builder_equiv"],
      outside=["stack shapes other than those listed (writer in {none, plain, sharded} x up to two plain readers)"], assumptions=COMMON_ASSUME)
-prop("C14", ["readonly_glue", "stack_gou_glue", "stack_ops_glue", "stack_get_w1r1_nock", "stack_ops_sanity_twin"],
+prop("C14", ["builder_glue", "readonly_glue", "stack_gou_glue", "stack_ops_glue", "stack_get_w1r1_nock", "stack_ops_sanity_twin"],
      ["stackc_get_w1r2_bytes", "stack_get_w0r2_bytes", "readonly_builder_equiv"],
      outside=["checkers other than none / byte equality (the panicking checker is the same comparison followed by expect())"], assumptions=COMMON_ASSUME)
 prop("C15", ["proto_glue", "stack_get_w1r0_nock", "stack_touch_w1r2", "plain_get_seq", "stack_ops_sanity_twin"],
